@@ -291,7 +291,9 @@ const TABLES: [&str; 3] = [
 ];
 
 /// (model, invocable, input context template; `$X` is replaced by the input variant of the operation)
-const MODEL_CALLS: [(&str, &str, &str); 24] = [
+const MODEL_CALLS: [(&str, &str, &str); 26] = [
+  ("gen", "tp2", "{x: $X, s: \"p$X\"}"),
+  ("gen", "to2", "{x: $X, s: \"o$X\"}"),
   ("gen", "tp", "{x: $X, s: \"p$X\"}"),
   ("gen", "to", "{x: $X, s: \"o$X\"}"),
   ("gen", "tr", "{x: $X, s: \"r$X\"}"),
